@@ -184,6 +184,7 @@ C['C18']=dict(mutants=[
  m('receiver-format-options',RD,'o.GetFormatOptions(unserializer),','r.Options.GetFormatOptions(unserializer),','per-call-reads-argument'),
 ],benign=[])
 C['C19']=dict(mutants=[
+ m('wrapper-swallows-error',WR,'\tif err := w.Storage.Store(bom, o.StoreOptions); err != nil {\n\t\treturn fmt.Errorf("calling backend store: %w", err)\n\t}','\tif err := w.Storage.Store(bom, o.StoreOptions); err != nil {\n\t\treturn nil\n\t}','wrapper-propagates-error'),
  m('store-shortcut',FS,'\t// Write the data to a temporary file in the same directory and rename it\n','\tif st, err := os.Stat(finalPath); err == nil && st.Size() == int64(len(out)) {\n\t\treturn nil\n\t}\n\t// Write the data to a temporary file in the same directory and rename it\n','store-success-publishes'),
  m('decoder-sees-prefix',FS,'\tif err := proto.Unmarshal(data, bom); err != nil {','\tif err := proto.Unmarshal(data[:min(len(data), 4<<20)], bom); err != nil {','retrieve-reads-whole-entry'),
  m('fatal-on-read',FS,'\t\treturn nil, fmt.Errorf("reading protobom data from disk: %w", err)','\t\tpanic(fmt.Errorf("reading protobom data from disk: %w", err))','no-process-exit'),
@@ -193,6 +194,7 @@ C['C19']=dict(mutants=[
  m('identity-check-dropped',FS,'\tif bom.GetMetadata().GetId() != id {\n\t\treturn nil, fmt.Errorf("stored entry does not contain document %q", id)\n\t}\n','','retrieve-validates'),
 ],benign=[])
 C['C20']=dict(mutants=[
+ m('write-error-ignored',FS,'\tif _, err := tmp.Write(out); err != nil {\n\t\ttmp.Close()        //nolint:errcheck,gosec // already failing\n\t\tos.Remove(tmpPath) //nolint:errcheck,gosec // best effort cleanup\n\t\treturn fmt.Errorf("writing data to disk: %w", err)\n\t}\n','\ttmp.Write(out) //nolint:errcheck\n','replace-protocol'),
  m('write-in-place',FS,'\tif err := os.Rename(tmpPath, finalPath); err != nil {','\tif err := os.WriteFile(finalPath, out, 0o644); err != nil {','no-inplace-write'),
  m('rename-before-close',FS,'\tif err := tmp.Close(); err != nil {\n\t\tos.Remove(tmpPath) //nolint:errcheck,gosec // best effort cleanup\n\t\treturn fmt.Errorf("writing data to disk: %w", err)\n\t}\n','\tdefer tmp.Close()\n','replace-protocol'),
  m('temp-elsewhere',FS,'os.CreateTemp(fs.Options.Path, filename+".*.tmp")','os.CreateTemp("", filename+".*.tmp")','replace-protocol'),
